@@ -62,7 +62,9 @@ def run_case(case, ctx):
         opts.update(nt=300, ns=900, dtype_ids='uint16', clusters='curated', features='none')
     if rng.random() < 0.35:
         # probes wider than the channel neighbourhood of a template (12 nearest, same shank)
-        opts.update(nc=[13, 20, 32][int(rng.integers(0, 3))], shanks=int(rng.integers(0, 3)), interleave=bool(rng.random() < 0.3))
+        opts.update(nc=[13, 20, 32][int(rng.integers(0, 3))], shanks=int(rng.integers(0, 3)), interleave=bool(rng.random() < 0.6))
+    if rng.random() < 0.15:
+        opts['pos_scale'] = 1e-6            # a probe described in metres
     opts['wmi_only'] = bool(opts['wm'] and rng.random() < 0.25)      # only whitening_mat_inv.npy is shipped
     if case.get('large'):
         opts.update(ns=[100000, 100001, 50000, 150000][case['seed'][1] % 4],       # also exact multiples of the batch size
@@ -80,6 +82,9 @@ def run_case(case, ctx):
         spec.notes['amplitude_threshold'] = 0.4
     if case['seed'][-1] % 3 == 1:
         spec.notes['ks2_templates_ind'] = True       # a Kilosort-2 style templates_ind.npy lies next to the dense templates (ignored by phylib)
+    if case['seed'][-1] % 5 == 3:
+        # every spike of one template has a stored amplitude of exactly 0: its mean is 0 (it has spikes), not NaN
+        spec.amplitudes[spec.spike_templates == spec.spike_templates[0]] = 0
     if spec.pc_features is not None and case['seed'][-1] % 4 == 2:
         # undefined (NaN) first-component features of a few spikes on one channel: their depth is undefined as well
         for s_ in rng.permutation(spec.pc_features.shape[0])[:3]:
@@ -238,6 +243,6 @@ def _check(m, spec, desc, ctx, f0, factor):
             exp = (spec.positions[cols, 1] * w).sum(axis=1) / w.sum(axis=1)
         exp[w.sum(axis=1) <= 0] = np.nan
         # float32 feature weights: absolute error scales with the largest channel depth, not with the result
-        dd = same(r.value, exp, dtype=False, rtol=1e-4, atol=1e-5 * max(1., float(np.abs(spec.positions[:, 1]).max())))
+        dd = same(r.value, exp, dtype=False, rtol=1e-4, atol=1e-5 * max(1e-300, float(np.abs(spec.positions[:, 1]).max())))
         if dd:
             V('summary_mismatch', 'get_depths: %s' % dd, **ff)
